@@ -108,7 +108,7 @@ def build_facts(config="all", repo=None, crate="sml_rs", package="sml-rs", use_c
         lock.close()
 
 
-def _prune_cache(keep, max_entries=160):
+def _prune_cache(keep, max_entries=48):
     root = os.path.join(VERIF, ".cache")
     ents = [(os.path.getmtime(os.path.join(root, e)), e) for e in os.listdir(root) if e != keep]
     ents.sort()
